@@ -42,7 +42,9 @@ var junkFiles = map[string]string{
 
 func c13Cells() []junkCell {
 	cells := []junkCell{}
-	for _, k := range []string{"configmap", "secret", "crdinstance", "openshift", "list"} {
+	// "lookalike-*": instances of custom resources whose KIND is spelled like a kind the analysis uses (another API group), named like a
+	// real resource of the input - the analysis does not use them
+	for _, k := range []string{"configmap", "secret", "crdinstance", "openshift", "list", "lookalike-service", "lookalike-route"} {
 		for _, p := range []string{"file", "first", "middle", "last"} {
 			cells = append(cells, junkCell{Kind: k, Placement: p})
 		}
@@ -69,7 +71,7 @@ func init() {
 	run.Register(&run.Check{
 		ID:    "C13",
 		Level: "fault_enumeration",
-		Rule: "fault enumeration: every (junk kind, placement) cell - 5 irrelevant kinds and 5 schema-conversion failures x {own file, first/middle/last document of a valid file}, 6 unreadable/malformed file kinds (two syntax errors, HTML, binary, dangling symlink, symlink loop), 5 harmless files (empty .yaml, .txt, .md, .png, non-manifest .json), a fatal duplicate-NetworkPolicy conflict alone and next to a severe document recorded before / after it, a fatal invalid CIDR next to a severe document - is applied to sampled valid worlds (case index mod number of cells picks the cell); " +
+		Rule: "fault enumeration: every (junk kind, placement) cell - 7 irrelevant kinds (two of them custom resources whose kind is spelled like a used one and which are named like a real Service / Route of the input) and 5 schema-conversion failures x {own file, first/middle/last document of a valid file}, 6 unreadable/malformed file kinds (two syntax errors, HTML, binary, dangling symlink, symlink loop), 5 harmless files (empty .yaml, .txt, .md, .png, non-manifest .json), a fatal duplicate-NetworkPolicy conflict alone and next to a severe document recorded before / after it, a fatal invalid CIDR next to a severe document - is applied to sampled valid worlds (case index mod number of cells picks the cell); " +
 			"oracles over paired real runs: list(valid+junk) = list(valid) point-wise, severe(with) - severe(without) >= injected bad items for list AND for diff with the junk in dir1, in dir2 and different junk on both sides, stop-on-error + severe => empty result or error on ConnlistFromDirPath, ConnlistFromResourceInfos and diff, fatal => error and no result for list and diff, diff(valid+junk, valid) has no added/removed/changed entry; " +
 			"non-trivial = the valid twin's report is non-empty and the cell injects a bad or fatal item; distinct = world hash + cell",
 		Assumptions:       []string{"a syntax error ends the decoding of its own file, so broken content is injected as whole files only", "an empty file and files without manifest extension are neither errors nor inputs"},
@@ -94,6 +96,9 @@ func runC13(c *run.Ctx) {
 		w = world.GenPrecedenceWorld(g, cfg)
 	} else {
 		w = world.GenNPWorld(g, cfg)
+	}
+	if strings.HasPrefix(cell.Kind, "lookalike") || (len(w.ANPs) == 0 && g.P(0.25)) {
+		world.GenIngressResources(g, w) // the {ingress-controller} lines are part of the computed connections too
 	}
 	if strings.HasPrefix(cell.Kind, "dupnetpol") && len(w.NetPols) == 0 {
 		w.NetPols = append(w.NetPols, world.GenNetPol(g, w, cfg, w.Workloads[0].Ns, "np0"))
@@ -136,8 +141,24 @@ func runC13(c *run.Ctx) {
 		_ = os.WriteFile(filepath.Join(junk, fatName), []byte(fatalY), 0o644)
 		junkName = fatName
 		injected = 1
-	case junkDocs[cell.Kind] != "" || cell.Kind == "dupnetpol":
+	case junkDocs[cell.Kind] != "" || cell.Kind == "dupnetpol" || strings.HasPrefix(cell.Kind, "lookalike"):
 		y := junkDocs[cell.Kind]
+		switch cell.Kind {
+		case "lookalike-service": // e.g. a Knative Service next to the core Service of the same name
+			name, ns := "svc0", w.Workloads[0].Ns
+			if len(w.Services) > 0 {
+				sv := rng.Pick(g, w.Services)
+				name, ns = sv.Name, sv.Ns
+			}
+			y = fmt.Sprintf("apiVersion: serving.knative.dev/v1\nkind: Service\nmetadata: {name: %q, namespace: %q}\nspec:\n  template:\n    spec:\n      containers: [{image: \"img\"}]\n", name, ns)
+		case "lookalike-route": // e.g. a Knative Route next to the OpenShift Route of the same name
+			name, ns := "route0", w.Workloads[0].Ns
+			if len(w.Routes) > 0 {
+				rt := rng.Pick(g, w.Routes)
+				name, ns = rt.Name, rt.Ns
+			}
+			y = fmt.Sprintf("apiVersion: serving.knative.dev/v1\nkind: Route\nmetadata: {name: %q, namespace: %q}\nspec:\n  traffic: [{percent: 100, latestRevision: true}]\n", name, ns)
+		}
 		if cell.Kind == "dupnetpol" {
 			np := w.NetPols[0]
 			np.Ingress, np.Egress = nil, nil
